@@ -28,7 +28,7 @@ use std::time::Duration;
 pub const META: PropMeta = PropMeta {
     id: "C19",
     level: "exploration",
-    rule: "cases: histories of <= 12 ops over one Signals source at a time: new/add_signals/remove_signals/set_signals with lists over D = {HUP,USR1,USR2,WINCH,URG,CHLD,CONT,IO} (empty lists, duplicates, overlap with the current set), raise(s) thread-directed (libc::raise) or process-directed (kill(getpid())), the application blocking/unblocking a signal outside D for itself (the source must leave it alone), insert into / remove from an EventLoop (Dispatcher), dispatch(0), drop. After EVERY op the thread mask, sigpending() and per-signal handler counters are compared with a model (configured set, thread-private and shared pending sets, handler counts); on dispatch the callback events are compared with the pending configured instances (signal, pid, uid, si_code). non-trivial: >= 1 add/remove/set call that changed the configured set after creation AND >= 1 signal raised while configured (so it went pending) that saw a later add/remove/set call while still pending and whose delivery (callback or handler) was then checked. distinct: fingerprint of the effective op list (no-op ops removed)",
+    rule: "cases: histories of <= 12 ops over one Signals source at a time: new/add_signals/remove_signals/set_signals with lists over D = {HUP,USR1,USR2,WINCH,URG,CHLD,CONT,IO} (empty lists, duplicates, overlap with the current set), raise(s) thread-directed (libc::raise) or process-directed (kill(getpid())), the application blocking/unblocking a signal outside D for itself (the source must leave it alone), the application blocking/unblocking a signal of D for itself while the source does not have it configured (raised meanwhile it stays pending; once the source configures it, remove/set/drop unblock it like any configured signal), insert into / remove from an EventLoop (Dispatcher), dispatch(0), drop. After EVERY op the thread mask, sigpending() and per-signal handler counters are compared with a model (configured set, thread-private and shared pending sets, handler counts); on dispatch the callback events are compared with the pending configured instances (signal, pid, uid, si_code). non-trivial: >= 1 add/remove/set call that changed the configured set after creation AND >= 1 signal raised while configured (so it went pending) that saw a later add/remove/set call while still pending and whose delivery (callback or handler) was then checked. distinct: fingerprint of the effective op list (no-op ops removed)",
     assumptions: &[
         "the check process has exactly one thread (verified via /proc/self/task before and after)",
         "no foreign process sends signals of D to the check process (handler-side sender check turns that into an infrastructure error)",
@@ -289,6 +289,11 @@ pub enum Op {
     /// the application itself blocks (true) / unblocks (false) a signal outside D (SIGVTALRM, never raised):
     /// the source must leave it alone ("exactly the configured signals" are its business)
     AppBlock(bool),
+    /// the application blocks / unblocks a signal of D for itself while the source does NOT have it configured
+    /// (no-op otherwise: unblocking a configured signal behind the source's back is outside the contract). A signal
+    /// raised meanwhile stays pending. Once the source configures the signal it is the source's: remove/set/drop
+    /// unblock it ("dropping the source unblocks them"), whoever blocked it first.
+    AppBlockD { sig: u8, on: bool },
 }
 
 #[derive(Serialize, Deserialize, Debug, Clone, Hash)]
@@ -316,7 +321,7 @@ fn op_strategy() -> impl Strategy<Value = Op> {
         2 => Just(Op::Insert),
         5 => Just(Op::Dispatch),
         // (nested: prop_oneof! boxes, and loses Sync, beyond 10 arms)
-        4 => prop_oneof![1 => Just(Op::Unplug), 1 => Just(Op::DropSrc), 2 => any::<bool>().prop_map(Op::AppBlock)],
+        6 => prop_oneof![1 => Just(Op::Unplug), 1 => Just(Op::DropSrc), 1 => any::<bool>().prop_map(Op::AppBlock), 3 => (sig_strategy(), prop::bool::weighted(0.6)).prop_map(|(sig, on)| Op::AppBlockD { sig, on })],
     ]
 }
 
@@ -327,9 +332,14 @@ fn case_strategy() -> impl Strategy<Value = Case> {
         0u8..10,
         proptest::collection::vec(sig_strategy(), 1..=3),
         proptest::collection::vec(op_strategy(), 0..=11),
+        (0u8..5, sig_strategy()),
     )
-        .prop_map(|(head, first, rest)| {
-            let mut ops = Vec::with_capacity(rest.len() + 2);
+        .prop_map(|(head, first, rest, (pre, pre_sig))| {
+            let mut ops = Vec::with_capacity(rest.len() + 3);
+            if pre == 0 {
+                // the application had a domain signal blocked before the source came to be
+                ops.push(Op::AppBlockD { sig: pre_sig, on: true });
+            }
             if head >= 1 {
                 ops.push(Op::New(first));
             }
@@ -368,6 +378,8 @@ struct Model {
     live: bool,
     /// configured set (== blocked part of D while the source lives)
     m: u8,
+    /// signals of D blocked by the application itself and not configured (disjoint from `m`)
+    app: u8,
     /// pending in the thread-private queue (raised with raise/tgkill)
     pt: u8,
     /// pending in the shared queue (raised with kill(getpid()))
@@ -465,7 +477,7 @@ impl Run {
     fn verify(&self, opi: usize, op: &Op, f8_shape: u8) -> Option<Violation> {
         let m = &self.model;
         // --- thread mask: exactly the configured signals (and whatever was blocked outside D before)
-        let want_mask = self.base_mask | full_of(if m.live { m.m } else { 0 });
+        let want_mask = self.base_mask | full_of(if m.live { m.m } else { 0 }) | full_of(m.app);
         let got_mask = observe_mask();
         if got_mask != want_mask {
             let extra = got_mask & !want_mask;
@@ -547,7 +559,14 @@ impl Run {
                 }
                 self.model.live = true;
                 self.model.m = bits_of(list);
+                if self.model.app & self.model.m != 0 {
+                    self.class("configured_a_signal_the_application_had_blocked");
+                }
+                self.model.app &= !self.model.m;
                 self.class("new");
+                if self.model.app != 0 {
+                    self.class("new_while_application_blocks_a_domain_signal");
+                }
                 if list.is_empty() {
                     self.class("empty_list");
                 }
@@ -596,6 +615,27 @@ impl Run {
                 // the handlers; signals in old ∩ new stay pending and must not reach the handler
                 self.model.age();
                 self.model.m = new;
+                if self.model.app & new != 0 {
+                    self.class("configured_a_signal_the_application_had_blocked");
+                }
+                self.model.app &= !new;
+                if let Op::Remove(_) = op {
+                    // remove_signals names a signal that is NOT configured but blocked by the application: the
+                    // statement does not say whether the call may touch it (calloop unblocks whatever is listed) -
+                    // don't-care: the model follows what is observed for exactly these bits
+                    let dc = s & self.model.app;
+                    if dc != 0 {
+                        self.class("remove_names_unconfigured_app_blocked_signal(dont_care)");
+                        let got = observe_mask();
+                        for i in 0..N {
+                            let b = 1u8 << i;
+                            if dc & b != 0 && got & full_of(b) == 0 {
+                                self.model.app &= !b;
+                                self.model.unblock(b);
+                            }
+                        }
+                    }
+                }
                 let leaving = old & !new;
                 if self.model.unblock(leaving) {
                     self.class("mask_op_delivers_pending_to_handler");
@@ -635,7 +675,10 @@ impl Run {
                     }
                 };
                 assert_eq!(r, 0, "raise/kill failed");
-                let blocked = self.model.live && self.model.m & b != 0;
+                let blocked = (self.model.live && self.model.m & b != 0) || self.model.app & b != 0;
+                if self.model.app & b != 0 {
+                    self.class("raise_while_application_blocks_it");
+                }
                 if blocked {
                     let other = if *process { self.model.pt } else { self.model.ps };
                     let q = if *process { &mut self.model.ps } else { &mut self.model.pt };
@@ -647,8 +690,10 @@ impl Run {
                     if other & b != 0 {
                         self.class("pending_in_both_queues");
                     }
-                    self.class(if *process { "raise_configured_process" } else { "raise_configured_thread" });
-                    if self.model.mask_changed {
+                    if self.model.app & b == 0 {
+                        self.class(if *process { "raise_configured_process" } else { "raise_configured_thread" });
+                    }
+                    if self.model.mask_changed && self.model.app & b == 0 {
                         self.class("raise_configured_after_mask_change");
                     }
                 } else {
@@ -736,6 +781,33 @@ impl Run {
                     self.class("app_blocked_foreign_signal");
                 } else {
                     self.base_mask &= !bit;
+                }
+            }
+            Op::AppBlockD { sig, on } => {
+                let i = (*sig as usize).min(N - 1);
+                let b = 1u8 << i;
+                let configured = self.model.live && self.model.m & b != 0;
+                if configured || (self.model.app & b != 0) == *on {
+                    return Step::Skipped;
+                }
+                let set = sigset_of(b);
+                unsafe {
+                    libc::pthread_sigmask(if *on { libc::SIG_BLOCK } else { libc::SIG_UNBLOCK }, &set, std::ptr::null_mut());
+                }
+                if *on {
+                    self.model.app |= b;
+                    self.class("app_blocked_domain_signal");
+                    if self.model.live {
+                        self.class("app_blocked_domain_signal_while_source_alive");
+                    }
+                } else {
+                    self.model.app &= !b;
+                    if self.model.unblock(b) {
+                        self.class("app_unblock_delivers_pending_to_handler");
+                    }
+                    if self.model.live {
+                        self.class("app_unblocked_domain_signal_while_source_alive");
+                    }
                 }
             }
             Op::DropSrc => {
@@ -856,6 +928,17 @@ pub fn run_case_opts(case: &Case, steer_f8: bool) -> CaseOutcome {
                 let k = (*pick as usize * n) >> 8;
                 let sig = (0..N).filter(|i| m & (1 << i) != 0).nth(k).unwrap() as u8;
                 resolved = Op::Raise { sig, process: *process };
+                &resolved
+            }
+            Op::AppBlockD { sig, on: false } => {
+                // unblock the (sig mod n)-th signal the application blocks at the moment (normal form: absolute index)
+                let app = run.model.app;
+                let n = app.count_ones() as usize;
+                if n == 0 {
+                    continue;
+                }
+                let sig = (0..N).filter(|i| app & (1 << i) != 0).nth(*sig as usize % n).unwrap() as u8;
+                resolved = Op::AppBlockD { sig, on: false };
                 &resolved
             }
             o => o,
